@@ -99,6 +99,7 @@ pub struct Scope {
 #[derive(Debug)]
 pub enum ScopeKind {
     Root,
+    Block,
     Record(RecordId),
     Foreach(EcoString, VariableId),
     Defset(DefsetId),
